@@ -31,13 +31,21 @@ def gen(tier, seed):
         dim = rnd.choice((1, 1, 2))
         base = {"U": fsl(U), "p": p, "kind": v["kind"], "mults": v["mults"], "scalar": dim == 1,
                 "P": pts_json(rand_points(rnd, n, dim))}
-        modes = ["same", "refined", "refined", "moved", "tiny", "other", "interval"]
+        modes = ["same", "refined", "refined", "moved", "tiny", "other", "interval", "cross", "cross", "cross_other"]
         for mode in (modes if tier != "quick" else rnd.sample(modes, 4)):
             ins = rnd.sample(mids, min(len(mids), rnd.randint(0, 2)))
             elev = rnd.choice((0, 0, 1)) if n <= 5 else 0
             if mode in ("refined", "moved", "tiny") and not ins and not elev:
                 ins = mids[:1]
-            cases.append(dict(base, mode=mode, ins=fsl(ins), elev=elev, which=rnd.randint(0, 50),
+            ins2 = []
+            if mode in ("cross", "cross_other"):
+                # both operands are refinements of the same curve by DIFFERENT multisets over the same knot values
+                free = [x for x in ks[1:-1] if U.count(x) <= p]
+                if len(free) < 2:
+                    continue
+                x, y = rnd.sample(free, 2)
+                ins, ins2, elev = [x], [y], 0
+            cases.append(dict(base, mode=mode, ins=fsl(ins), ins2=fsl(ins2), elev=elev, which=rnd.randint(0, 50),
                               P2=pts_json(rand_points(rnd, n, dim)), swap=rnd.random() < 0.5))
     return cases
 
@@ -55,6 +63,11 @@ def impl(case):
         B = Curve([u + 1 for u in nums(case["U"])], points(case["P"], case["scalar"]))
     else:
         B = deepcopy(A)
+    if mode in ("cross", "cross_other"):
+        A.knot_insert(nums(case["ins2"]))
+        B.knot_insert(nums(case["ins"]))
+        if mode == "cross_other":
+            B.ctrlpoints = list(A.ctrlpoints)       # same numbers on a different vector: a different function
     if mode in ("refined", "moved", "tiny"):
         if case["ins"]:
             B.knot_insert(nums(case["ins"]))
@@ -101,4 +114,4 @@ def describe(case):
 
 
 def nontrivial(case):
-    return case["p"] >= 1 and case["mode"] in ("refined", "moved", "tiny")
+    return case["p"] >= 1 and case["mode"] in ("refined", "moved", "tiny", "cross", "cross_other")
